@@ -90,7 +90,11 @@ CHECKS = {
             'Recorded concurrent histories of the real engine (3-8 clients, put/get/delete with unique values, tiny memtables, background '
             'flush/compaction, seeded schedule perturbation at the hook sites) are validated by TLC against the sequential map KevoLin: a '
             'history is accepted iff a linearisation exists in which failed writes are no-ops and which produces the state observed after '
-            'quiescence and after reopen. Each history is decided exactly; the schedules are sampled - hence exploration.',
+            'quiescence and after reopen. Deterministic gated interleavings park the flush path at each of its steps (and a writer inside its '
+            'append) while clients write, read and afterwards rewrite the same keys; full-speed stress runs (writers reading their own key '
+            'back while the log is rotated hundreds of times per second, nothing traced) contribute the head of every writer\'s history and '
+            'the surroundings of every read that does not show the last acknowledged write. Each history is decided exactly; the schedules '
+            'are sampled - hence exploration.',
             'schedules sampled; recorded intervals contain the true ones; search time-outs are machinery failures',
             'TLC trace validation (linearisation search) of recorded histories'),
     'C07': ('exploration', '§7 C07',
@@ -110,7 +114,7 @@ CHECKS = {
             'TLC MC of transcribed algorithms + replay of generated cursor programs + TLC trace validation of running scans'),
     'C17': ('model_checking', '§7 C17',
             'KevoTxn with the registry actions model-checked (UnlockByHolder, QuiescentLockFree; liveness EveryTxEnds under fairness of grants, '
-            'clients and reaper). Recorded histories validated by TLC: registry scenarios (abandon + idle/lifetime/connection/shutdown cleanup, '
+            'clients and reaper). Recorded histories validated by TLC: registry scenarios (abandoned read-write and read-only transactions + idle/lifetime/connection/shutdown cleanup, '
             'a begin timing out after 10 s with its late grant) each followed by the probe that a fresh read-write transaction is granted, '
             'and free-running histories with double finish / use after finish.',
             'two transactions per client excluded; lifetime limit only in thorough tier; gRPC variants under C19',
@@ -155,7 +159,8 @@ CHECKS = {
             'retained memtables and table files equals the abstract map whatever flush, rotation, compaction, retirement and reopen '
             'have done); TLC then generates API-level behaviours with the predicted state after every call, and each is replayed '
             'against the real engine under 4 configuration x byte-shape classes with a read-back of every key (and of untouched '
-            'filler keys) after every call. Right level: the property is a for-all over programs and layer arrangements, which the '
+            'filler keys) after every call; a value-length sweep (classes edge:<base>, 156 lengths around the 32 KB log fragment and the '
+            '64 KB buffer/block boundaries) replays short behaviours with reopen. Right level: the property is a for-all over programs and layer arrangements, which the '
             'model decides for the design and the replay transfers to the code by sampling the model\'s behaviours.',
             'bounded constants; replay samples the implementation; byte shapes sampled per class; hooks trusted for quiescence',
             'TLC exhaustive MC + TLC-generated behaviours replayed into the engine (observation equality)'),
@@ -164,7 +169,8 @@ CHECKS = {
             'rotation, flush, crash, recovery; TLC-generated behaviours replayed with storage_last_sequence compared after every call '
             'and the whole log directory read back at the end (groups of equal numbers = issued operations in order, strictly increasing); '
             'gated interleavings park the rotation (and a writer inside its append) while clients write, the hook stream must keep the '
-            'numbering rules of TRACE_StoreProto; crash recoveries (stops at hook sites incl. torn and record-boundary tails of fragmented '
+            'numbering rules of TRACE_StoreProto; full-speed stress runs (no tracing) whose log directory is read back as the append-event stream '
+            'the monitor judges; crash recoveries (stops at hook sites incl. torn and record-boundary tails of fragmented '
             'entries) must continue the numbering behind the surviving operations (TRACE_Durable!TObs).',
             'bounded constants; log retirement while closed excluded (kevo keeps no persistent counter); live retention under KevoRetention (C02)',
             'TLC exhaustive MC + replay with sequence-number oracle + log read-back'),
